@@ -840,4 +840,182 @@ theorem inv_of_ref {cfg : Settings} {t0 : Nat} {s : Sys} (h : Ref cfg t0 s) : In
   rw [h] at this
   exact this
 
+/-! ### expiry empties the table -/
+
+theorem mem_set_sub {t : Table} {id : Nat} {e : Entry} {p : Nat × Entry} (h : p ∈ Table.set t id e) : p ∈ t ∨ p = (id, e) := by
+  induction t with
+  | nil => simp only [Table.set, List.mem_singleton] at h; exact Or.inr h
+  | cons q r ih =>
+    obtain ⟨k, w⟩ := q
+    simp only [Table.set] at h
+    split at h
+    · simp only [List.mem_cons] at h
+      rcases h with h | h
+      · exact Or.inr h
+      · exact Or.inl (List.mem_cons_of_mem _ h)
+    · simp only [List.mem_cons] at h
+      rcases h with h | h
+      · exact Or.inl (by rw [h]; exact List.mem_cons_self)
+      · rcases ih h with h | h
+        · exact Or.inl (List.mem_cons_of_mem _ h)
+        · exact Or.inr h
+
+/-- clock and timestamps: the clock is positive, nothing was created or started lingering in the
+    future, and a stream without owner lingers (which only happens when lingering is configured) -/
+structure TInv (cfg : Settings) (st : State) : Prop where
+  pos : 0 < st.now
+  ent : ∀ p ∈ st.table, p.2.created ≤ st.now ∧ (p.2.owner = none → 0 < cfg.linger ∧ 0 < p.2.linger ∧ p.2.linger ≤ st.now)
+
+theorem tinv_sub {cfg : Settings} {st st' : State} (h : TInv cfg st) (hn : st'.now = st.now)
+    (hs : ∀ p ∈ st'.table, p ∈ st.table) : TInv cfg st' :=
+  ⟨by rw [hn]; exact h.pos, fun p hp => by rw [hn]; exact h.ent p (hs p hp)⟩
+
+theorem housekeeping_mem (cfg : Settings) (st : State) : ∀ p ∈ (doHousekeeping cfg st).table, p ∈ st.table := by
+  intro p hp
+  unfold doHousekeeping at hp
+  split at hp
+  · exact hp
+  · simp only at hp
+    split at hp <;> split at hp <;> (try simp only [List.mem_filter] at hp) <;> first | exact hp | exact hp.1 | exact hp.1.1
+
+theorem housekeeping_now (cfg : Settings) (st : State) : (doHousekeeping cfg st).now = st.now := by
+  unfold doHousekeeping; split <;> rfl
+
+theorem tinv_step (cfg : Settings) (st : State) (op : Op) (h : TInv cfg st) : TInv cfg (step cfg st op).1 := by
+  cases op with
+  | tick dt =>
+    refine ⟨by simp only [step]; have := h.pos; omega, fun p hp => ?_⟩
+    obtain ⟨h1, h2⟩ := h.ent p hp
+    simp only [step]
+    exact ⟨by omega, fun ho => by obtain ⟨a, b, c⟩ := h2 ho; exact ⟨a, b, by omega⟩⟩
+  | housekeeping => exact tinv_sub h (housekeeping_now cfg st) (housekeeping_mem cfg st)
+  | close id =>
+    simp only [step, doClose]
+    split
+    · exact h
+    · exact tinv_sub h rfl (fun p hp => (List.mem_filter.mp hp).1)
+  | disconnect conn =>
+    simp only [step, doDisconnect]
+    split
+    · rename_i hl
+      refine ⟨h.pos, fun p hp => ?_⟩
+      simp only [List.mem_map] at hp
+      obtain ⟨q, hq, rfl⟩ := hp
+      obtain ⟨h1, h2⟩ := h.ent q hq
+      simp only [Entry.lingerIf]
+      split
+      · exact ⟨h1, fun _ => ⟨hl, h.pos, Nat.le_refl _⟩⟩
+      · exact ⟨h1, h2⟩
+    · exact tinv_sub h rfl (fun p hp => (List.mem_filter.mp hp).1)
+  | «open» conn d =>
+    cases d with
+    | plain => exact h
+    | iter items =>
+      simp only [step, doOpen]
+      split
+      · refine ⟨h.pos, fun p hp => ?_⟩
+        rcases mem_set_sub hp with hp | hp
+        · exact h.ent p hp
+        · rw [hp]; exact ⟨Nat.le_refl _, fun ho => by cases ho⟩
+      · exact h
+  | next id conn =>
+    simp only [step, doNext]
+    cases hg : st.table.get id with
+    | none => exact h
+    | some e =>
+      have he := h.ent (id, e) (mem_of_get hg)
+      simp only
+      split
+      · refine ⟨h.pos, fun p hp => ?_⟩
+        rcases mem_set_sub hp with hp | hp
+        · exact h.ent p hp
+        · rw [hp]
+          simp only
+          split
+          · exact ⟨he.1, fun ho => by cases ho⟩
+          · exact ⟨he.1, he.2⟩
+      · exact tinv_sub h rfl (fun p hp => (List.mem_filter.mp hp).1)
+      · exact tinv_sub h rfl (fun p hp => (List.mem_filter.mp hp).1)
+
+theorem tinv_exec (cfg : Settings) (ops : List Op) (st : State) (h : TInv cfg st) : TInv cfg (exec cfg st ops).1 := by
+  induction ops generalizing st with
+  | nil => exact h
+  | cons op ops ih => simp only [exec]; exact ih _ (tinv_step cfg st op h)
+
+theorem tinv_init (cfg : Settings) (t0 : Nat) (h : 0 < t0) : TInv cfg (State.init t0) :=
+  ⟨h, fun p hp => by simp [State.init] at hp⟩
+
+/-- after a disconnect of `c0` no remaining stream is owned by `c0`, and no new owners appear -/
+theorem disconnect_owner (cfg : Settings) (st : State) (c0 : Nat) :
+    ∀ p ∈ (doDisconnect cfg st c0).table, ∀ c, p.2.owner = some c → c ≠ c0 ∧ ∃ q ∈ st.table, q.2.owner = some c := by
+  intro p hp c hc
+  unfold doDisconnect at hp
+  split at hp
+  · simp only [List.mem_map] at hp
+    obtain ⟨q, hq, rfl⟩ := hp
+    simp only [Entry.lingerIf] at hc
+    split at hc
+    · cases hc
+    · rename_i hne
+      exact ⟨fun h2 => hne (by rw [hc, h2]), q, hq, hc⟩
+  · simp only [List.mem_filter, decide_eq_true_eq] at hp
+    exact ⟨fun h2 => hp.2 (by rw [hc, h2]), p, hp.1, hc⟩
+
+theorem disconnect_all (cfg : Settings) (conns : List Nat) (st : State) (h : TInv cfg st) :
+    TInv cfg (exec cfg st (conns.map .disconnect)).1 ∧ (exec cfg st (conns.map .disconnect)).1.now = st.now ∧
+    ∀ p ∈ (exec cfg st (conns.map .disconnect)).1.table, ∀ c, p.2.owner = some c →
+      c ∉ conns ∧ ∃ q ∈ st.table, q.2.owner = some c := by
+  induction conns generalizing st with
+  | nil => exact ⟨h, rfl, fun p hp c hc => ⟨by simp, p, hp, hc⟩⟩
+  | cons c0 cs ih =>
+    simp only [List.map_cons, exec]
+    have h1 : TInv cfg (step cfg st (.disconnect c0)).1 := tinv_step cfg st _ h
+    obtain ⟨i1, i2, i3⟩ := ih (step cfg st (.disconnect c0)).1 h1
+    refine ⟨i1, by rw [i2]; simp only [step, doDisconnect]; split <;> rfl, fun p hp c hc => ?_⟩
+    obtain ⟨j1, q, hq, hqc⟩ := i3 p hp c hc
+    obtain ⟨k1, q', hq', hqc'⟩ := disconnect_owner cfg st c0 q hq c hqc
+    exact ⟨by simp only [List.mem_cons, not_or]; exact ⟨k1, j1⟩, q', hq', hqc'⟩
+
+theorem expiry_empties (cfg : Settings) (st : State) (h : TInv cfg st) (conns : List Nat) (dt : Nat)
+    (hown : ∀ p ∈ st.table, ∀ c, p.2.owner = some c → c ∈ conns) (hlg : cfg.linger < dt) :
+    (exec cfg st (conns.map .disconnect ++ [.tick dt, .housekeeping])).1.table = [] := by
+  rw [exec_append]
+  obtain ⟨i1, i2, i3⟩ := disconnect_all cfg conns st h
+  generalize (exec cfg st (conns.map .disconnect)).1 = st1 at i1 i2 i3
+  have hnone : ∀ p ∈ st1.table, p.2.owner = none := by
+    intro p hp
+    cases ho : p.2.owner with
+    | none => rfl
+    | some c =>
+      obtain ⟨j1, q, hq, hqc⟩ := i3 p hp c ho
+      exact absurd (hown q hq c hqc) j1
+  simp only [exec, step]
+  unfold doHousekeeping
+  simp only
+  split
+  · rename_i he; simpa using he
+  · by_cases hl : 0 < cfg.linger
+    · rw [if_pos hl]
+      simp only
+      rw [List.filter_eq_nil_iff]
+      intro p hp
+      have hp1 : p ∈ st1.table := by
+        split at hp
+        · exact (List.mem_filter.mp hp).1
+        · exact hp
+      obtain ⟨_, h2⟩ := i1.ent p hp1
+      obtain ⟨_, b, c⟩ := h2 (hnone p hp1)
+      have hx : lingerExpired cfg (st1.now + dt) p.2 = true := by
+        simp only [lingerExpired, decide_eq_true_eq]
+        exact ⟨by omega, by omega⟩
+      simp [hx]
+    · -- lingering is not configured: a stream without owner cannot exist, so the table is already empty
+      exfalso
+      rename_i hne
+      cases htab : st1.table with
+      | nil => rw [htab] at hne; simp at hne
+      | cons p r =>
+        have hp : p ∈ st1.table := by rw [htab]; exact List.mem_cons_self
+        exact hl ((i1.ent p hp).2 (hnone p hp)).1
+
 end Pyro.Streams
